@@ -151,6 +151,9 @@ var stockFiles = map[string]fileSpec{
 	"/u/mb.fasta":    {Parts: []string{"NC_001422.fasta"}, Repeat: 240},
 	"/u/feat.tbl": {Text: "     misc_feature    10..50\n                     /note=\"annotated by the simulator\"\n" +
 		"     gene            complement(60..120)\n                     /gene=\"sim\"\n"},
+	// files whose whole content is what a literal (@...) argument of insert / search looks like
+	"/u/lit.txt":   {Text: "@ACGT"},
+	"/u/lit2.txt":  {Text: "@ATGC"},
 	"/u/feat2.tbl": {Text: "     misc_feature    1..9\n                     /note=\"other table\"\n"},
 }
 
@@ -356,6 +359,20 @@ func neighbourOf(r *core.RNG, pool []string, cur string) string {
 	return pickS(r, pool)
 }
 
+// litFile names the stock file whose whole content is the literal argument
+// (@...) itself.
+func litFile(lit string) string { return "/u/lit/" + strings.TrimPrefix(lit, "@") }
+
+func init() {
+	for _, pool := range [][]string{guestPool, queries} {
+		for _, v := range pool {
+			if strings.HasPrefix(v, "@") {
+				stockFiles[litFile(v)] = fileSpec{Text: v}
+			}
+		}
+	}
+}
+
 // mutateOne changes exactly one argument of an invocation, choosing uniformly
 // among the kinds of change the command allows.
 func mutateOne(r *core.RNG, a invocation) (invocation, string) {
@@ -392,6 +409,11 @@ func mutateOne(r *core.RNG, a invocation) (invocation, string) {
 			pools := posPools[a.Cmd]
 			i := r.Intn(len(pools))
 			nv := neighbourOf(r, pools[i], v.Pos[i])
+			if strings.HasPrefix(v.Pos[i], "@") && r.Chance(1, 3) {
+				// the same bytes, once as a literal argument and once as the
+				// whole content of a file given in its place
+				nv = litFile(v.Pos[i])
+			}
 			if nv != v.Pos[i] {
 				v.Pos[i] = nv
 				return v, "one-positional"
@@ -797,6 +819,9 @@ func inputEdit(r *core.RNG, file string) editSpec {
 func addFiles(sc *cliScenario, steps ...*runStep) {
 	for _, s := range steps {
 		for _, a := range append([]string{s.Stdin}, s.Argv...) {
+			if strings.HasPrefix(a, cliFifo+"/") {
+				a = "/u" + strings.TrimPrefix(a, cliFifo) // the file a named pipe delivers
+			}
 			if f, ok := stockFiles[a]; ok {
 				if _, have := sc.Files[a]; !have {
 					sc.Files[a] = f
